@@ -12,6 +12,7 @@ import GeckoModel.Proofs.AccessorFrame
 import GeckoModel.Properties.C18
 import GeckoModel.Model.Coop
 import GeckoModel.Generated.Skeletons
+import GeckoModel.Model.ObserverDispatch
 
 namespace GeckoModel.C03
 open GeckoModel GeckoModel.Generated
@@ -239,5 +240,88 @@ theorem notification_state_inventory :
     stateOf Skeletons.sk_driver_spastruct__GeckoStructure_replace_status_block_segment = (["self._status_block"], ["self.accessors.values"]) ∧
     stateOf Skeletons.sk_driver_async_spastruct__GeckoAsyncStructure_replace_status_block_segment = (["self._status_block"], ["self.accessors.values"]) := by
   decide +kernel
+
+/-! ### observers that change the registration list while they are being notified -/
+namespace Reentrant
+open GeckoModel.ObserverDispatch
+
+/-- every observer the dispatch calls is registered at the moment it is called: **a removed observer is never called**, whoever
+removed it (itself earlier, another observer during this very notification, `unwatch_all`) -/
+theorem called_only_while_registered (react : ObsId → React) : ∀ (todo live : List ObsId) (o : ObsId),
+    o ∈ (dispatch react todo live).1 → ∃ pre post, todo = pre ++ o :: post ∧ o ∈ (dispatch react pre live).2 := by
+  intro todo
+  induction todo with
+  | nil => intro live o h; simp [dispatch] at h
+  | cons x rest ih =>
+    intro live o h
+    by_cases hx : x ∈ live
+    · simp only [dispatch, hx, if_true] at h
+      rcases List.mem_cons.mp h with rfl | h'
+      · exact ⟨[], rest, rfl, by simpa [dispatch] using hx⟩
+      · obtain ⟨pre, post, hsplit, hmem⟩ := ih _ o h'
+        refine ⟨x :: pre, post, by simp [hsplit], ?_⟩
+        simpa [dispatch, hx] using hmem
+    · simp only [dispatch, hx, if_false] at h
+      obtain ⟨pre, post, hsplit, hmem⟩ := ih _ o h
+      refine ⟨x :: pre, post, by simp [hsplit], ?_⟩
+      simpa [dispatch, hx] using hmem
+
+/-- nobody is called twice for one change (the registration list has no duplicates: `watch` refuses them) -/
+theorem called_at_most_once (react : ObsId → React) : ∀ (todo live : List ObsId), todo.Nodup → (dispatch react todo live).1.Nodup := by
+  intro todo
+  induction todo with
+  | nil => intro live _; simp [dispatch]
+  | cons x rest ih =>
+    intro live hnd
+    have hx' : x ∉ rest := (List.nodup_cons.mp hnd).1
+    have hrest := (List.nodup_cons.mp hnd).2
+    have sub : ∀ (l : List ObsId) (y : ObsId), y ∈ (dispatch react rest l).1 → y ∈ rest := by
+      intro l y hy
+      obtain ⟨pre, post, hs, _⟩ := called_only_while_registered react rest l y hy
+      rw [hs]; simp
+    by_cases hx : x ∈ live
+    · simp only [dispatch, hx, if_true]
+      exact List.nodup_cons.mpr ⟨fun h => hx' (sub _ _ h), ih _ hrest⟩
+    · simp only [dispatch, hx, if_false]
+      exact ih _ hrest
+
+/-- **an observer that stays registered throughout is called** (exactly once, with `called_at_most_once`): if nobody's reaction
+removes `o`, then `o`, registered when the change arrives, is among the observers called -/
+theorem unremoved_observer_is_called (react : ObsId → React) (o : ObsId)
+    (hkeep : ∀ x, react x ≠ .unwatch o ∧ react x ≠ .unwatchAll) : ∀ (todo live : List ObsId),
+    o ∈ todo → o ∈ live → o ∈ (dispatch react todo live).1 := by
+  intro todo
+  induction todo with
+  | nil => intro live h; cases h
+  | cons x rest ih =>
+    intro live hto hlive
+    have keep : ∀ y, o ∈ applyReact live (react y) := by
+      intro y
+      have := hkeep y
+      cases hr : react y with
+      | nothing => simpa [applyReact] using hlive
+      | unwatch z =>
+        have hz : z ≠ o := by intro h; rw [h] at hr; exact this.1 hr
+        simp only [applyReact]
+        exact (List.mem_erase_of_ne (Ne.symm hz)).mpr hlive
+      | unwatchAll => exact absurd hr this.2
+      | watch z => simp only [applyReact]; split <;> simp [hlive]
+    by_cases hx : x ∈ live
+    · simp only [dispatch, hx, if_true]
+      rcases List.mem_cons.mp hto with rfl | h'
+      · simp
+      · exact List.mem_cons_of_mem _ (ih _ h' (keep x))
+    · simp only [dispatch, hx, if_false]
+      rcases List.mem_cons.mp hto with rfl | h'
+      · exact absurd hlive hx
+      · exact ih _ h' hlive
+
+/-- non-vacuity: an observer that unwatches itself does not make the next one miss the change; an observer removed by an earlier
+one is not called -/
+example : notify (fun o => if o = 1 then .unwatch 1 else .nothing) [1, 2, 3] = ([1, 2, 3], [2, 3]) ∧
+    notify (fun o => if o = 1 then .unwatch 3 else .nothing) [1, 2, 3] = ([1, 2], [1, 2]) ∧
+    notify (fun o => if o = 2 then .unwatchAll else .nothing) [1, 2, 3] = ([1, 2], []) := by decide
+
+end Reentrant
 
 end GeckoModel.C03
